@@ -64,10 +64,32 @@ fn start_watchdog() {
     });
 }
 
+/// worker mode: the case in flight is kept in the worker's crash record, so that a case that kills
+/// the process (stack overflow, abort) is known to the parent
+static IN_FLIGHT: std::sync::Mutex<Option<std::fs::File>> = std::sync::Mutex::new(None);
+
+fn open_in_flight_record() {
+    if let (Ok(dir), Ok(w)) = (std::env::var("VERIF_WORKER_DIR"), std::env::var("VERIF_WORKER")) {
+        let i = w.split('/').next().unwrap_or("0").to_string();
+        if let Ok(f) = std::fs::File::create(std::path::Path::new(&dir).join(format!("crash-{i}.json"))) {
+            *IN_FLIGHT.lock().unwrap() = Some(f);
+        }
+    }
+}
+
 pub fn check_text(text: &str) -> Result<&'static str, Fail> {
     if let Ok(mut c) = CURRENT.lock() {
         c.clear();
         c.push_str(text);
+    }
+    if let Ok(mut g) = IN_FLIGHT.lock() {
+        if let Some(f) = g.as_mut() {
+            use std::io::{Seek, Write};
+            let rec = json!({"why": "in-flight", "case": {"text": text}}).to_string();
+            let _ = f.seek(std::io::SeekFrom::Start(0));
+            let _ = f.write_all(rec.as_bytes());
+            let _ = f.set_len(rec.len() as u64);
+        }
     }
     CASE_STARTED_MS.store(now_ms(), Ordering::Relaxed);
     let r = check_text_inner(text);
@@ -320,6 +342,7 @@ pub fn run(ctx: Ctx) -> i32 {
     let seeds = repo_modules();
     if ctx.worker.is_some() {
         start_watchdog();
+        open_in_flight_record();
     }
     let shards = 64u64;
     let cases = tier.pick(3000u32, 40_000u32);
@@ -380,14 +403,17 @@ pub fn run(ctx: Ctx) -> i32 {
                 let _ = std::fs::write(&path, json!({"case": j["case"]}).to_string());
                 let exe = std::env::current_exe().expect("exe");
                 let mut reproduced = 0;
+                let mut died_by_signal = false;
                 for _ in 0..3 {
                     if let Ok(mut child) = std::process::Command::new(&exe).args(["C14", "--replay", path.to_str().unwrap()]).env("VERIF_OUT", std::env::temp_dir()).stdout(std::process::Stdio::null()).stderr(std::process::Stdio::null()).spawn() {
                         let t0 = std::time::Instant::now();
                         loop {
                             match child.try_wait() {
                                 Ok(Some(s)) => {
-                                    if s.code() == Some(3) {
+                                    // 3 = watchdog; no exit code = killed by a signal (stack overflow / abort)
+                                    if s.code() == Some(3) || s.code().is_none() {
                                         reproduced += 1;
+                                        died_by_signal |= s.code().is_none();
                                     }
                                     break;
                                 }
@@ -404,8 +430,13 @@ pub fn run(ctx: Ctx) -> i32 {
                     }
                 }
                 let _ = std::fs::remove_file(&path);
-                if reproduced == 3 {
+                if reproduced == 3 && died_by_signal {
+                    report.fail("process-abort", &format!("the front end killed the process instead of returning Ok or Err (reproduced 3 times in isolation): {}", b.stderr_tail.lines().filter(|l| l.contains("overflow") || l.contains("abort") || l.contains("fatal")).collect::<Vec<_>>().join(" / ")), j["case"].clone());
+                } else if reproduced == 3 {
                     report.fail("hang", "the front end did not terminate within 10 s (reproduced 3 times in isolation)", j["case"].clone());
+                } else if j["why"] == "in-flight" && reproduced == 0 {
+                    // the worker died for a reason that the case in flight does not reproduce
+                    dead_workers_are_infra(&report, std::slice::from_ref(b));
                 } else {
                     report.infra(&format!("worker {} hit the watchdog on a case that reproduced only {reproduced}/3 times (inconclusive)", b.index));
                 }
